@@ -89,3 +89,282 @@ def diff_snap(a, b):
         if a.get(k) != b.get(k):
             out.append(k)
     return out
+
+
+# =========================================================================== generated project layouts
+#
+# A project spec is JSON-able and doubles as the replayable case:
+#   {"ast", "state", "old", "pep_shaped",
+#    "entries": [[config key (path or glob), [pattern index, ...]], ...]       order = processing order
+#    "patterns": [{"kind", "raw", "ast" | None, "d1", "d2"}, ...]
+#    "files": [{"path", "lines": [[segment, ...], ...], "seps": [sep per line], "bom": bool}, ...]
+#             segment = ["t", text] | ["o", pattern index]
+#    "bystanders": [{"path", "content"}], "explicit_config_entry": bool}
+
+from harness.refmodel import PART_FIELD, parts_of, pattern_str, ref_render  # noqa: E402
+from harness import pep440ref  # noqa: E402
+
+DELIMS = [('ver%d="', '"'), ("(v%d ", ")"), ("#%d+ ", " +"), ("<x%d>", "</x>"), ("v%d: ", ";"), ("rel%d = '", "'"),
+          ("- %d @ ", " @"), ("%d*(", ")*"), ("?%d=", "&"), ("{k%d: ", "}"), ("|%d| ", " |")]
+ALT_PARTS = {"year_y": ["YYYY", "YY", "0Y"], "year_g": ["GGGG", "GG", "0G"], "month": ["MM", "0M"], "dom": ["DD", "0D"],
+             "doy": ["JJJ", "00J"], "week_w": ["WW", "0W"], "week_u": ["UU", "0U"], "week_v": ["VV", "0V"], "quarter": ["Q"],
+             "major": ["MAJOR"], "minor": ["MINOR"], "patch": ["PATCH"], "bid": ["BUILD", "BLD"], "tag": ["TAG"],
+             "num": ["NUM"], "inc0": ["INC0"], "inc1": ["INC1"]}
+WORDS = ["lorem", "ipsum", "release", "notes", "2019", "x86", "the", "version", "v", "1.0", "==", "-->", "#", "copyright",
+         "build 7", "(c)", "3rd", "etc.", "a|b", "[ok]", "100%", "~", "", "  ", "\t"]
+
+
+def occurrence_text(pat, vast, state):
+    if pat["kind"] == "pep":
+        return pat["d1"] + pep440ref.canonical(ref_render(vast, state)) + pat["d2"]
+    return ref_render(pat["ast"], state)
+
+
+def gen_patterns(d, vast, n, k0, pep_shaped, allow_partial=True):
+    pats = []
+    fields = []
+    for p in parts_of(vast):
+        if PART_FIELD[p] not in fields:
+            fields.append(PART_FIELD[p])
+    two_digit_ok = any(p in ("YY", "0Y", "GG", "0G") for p in parts_of(vast))
+    for i in range(n):
+        k = k0 + i
+        d1, d2 = d.choice(DELIMS)
+        d1 = d1 % k
+        kinds = ["version", "version", "full"] + (["pep", "pep"] if pep_shaped else []) + (["partial", "partial"] if allow_partial else [])
+        kind = d.choice(kinds)
+        if kind == "version":
+            pats.append({"kind": kind, "raw": _esc(d1) + "{version}" + _esc(d2), "ast": [["lit", d1]] + vast + [["lit", d2]], "d1": d1, "d2": d2})
+        elif kind == "full":
+            pats.append({"kind": kind, "raw": _esc(d1) + pattern_str(vast) + _esc(d2), "ast": [["lit", d1]] + vast + [["lit", d2]], "d1": d1, "d2": d2})
+        elif kind == "pep":
+            pats.append({"kind": kind, "raw": _esc(d1) + "{pep440_version}" + _esc(d2), "ast": None, "d1": d1, "d2": d2})
+        else:
+            m = d.int(1, min(3, len(fields)))
+            idx = sorted(d.shuffle(list(range(len(fields))))[:m])
+            nodes = [["lit", d1]]
+            for j, fi in enumerate(idx):
+                f = fields[fi]
+                alts = [a for a in ALT_PARTS.get(f, []) if two_digit_ok or a not in ("YY", "0Y", "GG", "0G")]
+                if f == "bid" and any(p == "BLD" for p in parts_of(vast)):
+                    alts = ["BLD"]  # a BLD version carries no leading zeros to show
+                if not alts:
+                    continue
+                if len(nodes) > 1:
+                    nodes.append(["lit", d.choice([".", "-", "/", " "])])
+                nodes.append(["part", d.choice(alts)])
+            if len(nodes) == 1:
+                nodes.append(["part", ALT_PARTS[fields[0]][0]])
+            nodes.append(["lit", d2])
+            pats.append({"kind": kind, "raw": pattern_str(nodes), "ast": nodes, "d1": d1, "d2": d2})
+    return pats
+
+
+def _esc(t):
+    return t.replace("[", "\\[").replace("]", "\\]")
+
+
+def gen_filler(d, unicode_text=False):
+    if unicode_text:
+        n = d.int(0, 12)
+        out = []
+        for _ in range(n):
+            c = d.codepoint()
+            if c in (0x0A, 0x0D):
+                c = 0x20
+            out.append(chr(c))
+        return "".join(out)
+    return " ".join(d.choice(WORDS) for _ in range(d.int(0, 5)))
+
+
+SEP_REGIMES = ["lf", "lf", "crlf", "cr", "mixed"]
+
+
+def gen_file(d, path, pat_idx, npatterns_total, regime=None, unicode_text=False, share_lines=True, once_each=False):
+    """lines with planted occurrences; every pattern of pat_idx occurs at least once; at most one occurrence per
+    pattern and line"""
+    regime = regime or d.choice(SEP_REGIMES)
+    lines = []
+    todo = list(pat_idx)
+    extra = [] if once_each else [d.choice(pat_idx) for _ in range(d.int(0, 2))] if pat_idx else []
+    plant = d.shuffle(todo + extra)
+    while plant:
+        for _ in range(d.int(0, 2)):
+            lines.append([["t", gen_filler(d, unicode_text)]])
+        here = [plant.pop()]
+        while plant and share_lines and d.chance(1, 3) and plant[-1] not in here:
+            here.append(plant.pop())
+        segs = [["t", gen_filler(d, unicode_text)]]
+        for pi in here:
+            segs.append(["o", pi])
+            segs.append(["t", " " + gen_filler(d, unicode_text)])
+        lines.append(segs)
+    for _ in range(d.int(0, 2)):
+        lines.append([["t", gen_filler(d, unicode_text)]])
+    if not lines:
+        lines = [[["t", "empty"]]]
+    seps = []
+    for i in range(len(lines)):
+        if regime == "lf":
+            seps.append("\n")
+        elif regime == "crlf":
+            seps.append("\r\n")
+        elif regime == "cr":
+            seps.append("\r")
+        else:
+            seps.append(d.choice(["\n", "\r\n", "\r"]))
+    if d.chance(1, 3):
+        seps[-1] = ""  # no final newline
+    return {"path": path, "lines": lines, "seps": seps, "bom": unicode_text and d.chance(1, 8), "regime": regime}
+
+
+def render_file(fspec, patterns, vast, state):
+    out = ["﻿"] if fspec.get("bom") else []
+    for segs, sep in zip(fspec["lines"], fspec["seps"]):
+        for kind, v in segs:
+            out.append(v if kind == "t" else occurrence_text(patterns[v], vast, state))
+        out.append(sep)
+    return "".join(out)
+
+
+NAMES = ["README.md", "setup.py", "src/pkg/__init__.py", "docs/conf.py", "CHANGELOG.txt", "src/pkg/version.txt", "a b.txt", "x-1.cfg"]
+
+
+def gen_project(d, vast, state, pep_shaped, max_files=5, max_patterns=4, unicode_text=False, regimes=None, share_lines=True,
+                allow_glob=True, allow_partial=True, once_each=False):
+    nfiles = d.int(1, max_files)
+    names = d.shuffle(NAMES)[:nfiles]
+    patterns, entries, files = [], [], []
+    use_glob = allow_glob and nfiles >= 2 and d.chance(1, 3)
+    for i, name in enumerate(names):
+        n = d.int(1, max_patterns)
+        pats = gen_patterns(d, vast, n, len(patterns), pep_shaped, allow_partial)
+        idx = list(range(len(patterns), len(patterns) + n))
+        patterns += pats
+        entries.append([name, idx])
+    file_pat = {name: list(idx) for name, idx in entries}
+    if use_glob:
+        # two files share a glob entry (its patterns must occur in both); one of them keeps an explicit entry too
+        g1, g2 = "glob/one.txt", "glob/two.txt"
+        n = d.int(1, 2)
+        pats = gen_patterns(d, vast, n, len(patterns), pep_shaped, allow_partial)
+        gidx = list(range(len(patterns), len(patterns) + n))
+        patterns += pats
+        entries.insert(d.int(0, len(entries)), ["glob/*.txt", gidx])
+        file_pat[g1] = list(gidx)
+        file_pat[g2] = list(gidx)
+        if d.bool():
+            pats = gen_patterns(d, vast, 1, len(patterns), pep_shaped, allow_partial)
+            patterns += pats
+            entries.insert(d.int(0, len(entries)), [g1, [len(patterns) - 1]])
+            file_pat[g1] = file_pat[g1] + [len(patterns) - 1]
+    for name, idx in file_pat.items():
+        regime = d.choice(regimes) if regimes else None
+        files.append(gen_file(d, name, idx, len(patterns), regime, unicode_text, share_lines, once_each or (regime or "") == "mixed"))
+    for f in files:
+        if f["regime"] == "mixed":
+            # bumpver's notion of a line differs from ours under mixed separators: plant every pattern once only
+            seen = set()
+            for segs in f["lines"]:
+                segs[:] = [s for s in segs if s[0] == "t" or (s[1] not in seen and not seen.add(s[1]))]
+    bystanders = []
+    for j in range(d.int(0, 2)):
+        content = gen_filler(d, unicode_text) + "\n"
+        if patterns and d.bool():
+            content += occurrence_text(patterns[0], vast, state) + "\n"  # would match, but is not configured
+        bystanders.append({"path": "other/bystander%d.txt" % j, "content": content})
+    return {"ast": vast, "state": state, "pep_shaped": pep_shaped, "patterns": patterns, "entries": entries, "files": files,
+            "bystanders": bystanders, "explicit_config_entry": d.chance(1, 4)}
+
+
+def project_config(spec, old, options=None):
+    files = [[key, [spec["patterns"][i]["raw"] for i in idx]] for key, idx in spec["entries"]]
+    if spec.get("explicit_config_entry"):
+        files.insert(0, ["bumpver.toml", ['current_version = "{version}"']])
+    return toml_config({"current_version": old, "version_pattern": pattern_str(spec["ast"]), "options": options or {}, "files": files})
+
+
+def materialize(spec, root, state, options=None):
+    old = ref_render(spec["ast"], state)
+    write_file(root, "bumpver.toml", project_config(spec, old, options))
+    for f in spec["files"]:
+        write_file(root, f["path"], render_file(f, spec["patterns"], spec["ast"], state))
+    for b in spec["bystanders"]:
+        write_file(root, b["path"], b["content"])
+    return old
+
+
+def expected_files(spec, state, options=None):
+    """{path: text} of every configured file (config included) for a given version state"""
+    new = ref_render(spec["ast"], state)
+    out = {"bumpver.toml": project_config(spec, new, options)}
+    for f in spec["files"]:
+        out[f["path"]] = render_file(f, spec["patterns"], spec["ast"], state)
+    return out
+
+
+def construction_ok(spec, state):
+    """self-check with the reference matcher: on the old content every pattern matches exactly at its planted
+    spans (leftmost occurrence per line) and nowhere else.  -> None | reason"""
+    from harness.refmodel import ref_search
+    for f in spec["files"]:
+        mine = {i for segs in f["lines"] for k, i in segs if k == "o"}
+        for segs in f["lines"]:
+            line = "".join(v if k == "t" else occurrence_text(spec["patterns"][v], spec["ast"], state) for k, v in segs)
+            planted = {}
+            pos = 0
+            for k, v in segs:
+                t = v if k == "t" else occurrence_text(spec["patterns"][v], spec["ast"], state)
+                if k == "o":
+                    planted[v] = (pos, pos + len(t))
+                pos += len(t)
+            for i in mine:
+                pat = spec["patterns"][i]
+                if pat["ast"] is None:
+                    j = line.find(pat["d1"])
+                    got = None
+                    if j >= 0:
+                        e = line.find(pat["d2"], j + len(pat["d1"]))
+                        got = (j, e + len(pat["d2"])) if e >= 0 else None
+                else:
+                    got = ref_search(pat["ast"], line)
+                if got != planted.get(i):
+                    return "pattern %d matches at %r, planted at %r" % (i, got, planted.get(i))
+    return None
+
+
+# =========================================================================== bump flags for project checks
+
+import datetime as _dt  # noqa: E402
+
+
+def gen_bump(d, vast, state):
+    """flags/date that make a successful bump likely -> (flags dict for bv.flag_args, date iso)"""
+    from harness import grammar
+    from harness.refmodel import ref_cal
+    parts = set(parts_of(vast))
+    flags = {"major": False, "minor": False, "patch": False, "tag_num": False, "pin_date": False, "pin_increments": False, "tag": None}
+    old_date = grammar.date_of(state)
+    off = d.choice([0, 0, 1, 31, 400])
+    try:
+        date = old_date + _dt.timedelta(days=off)
+    except OverflowError:
+        date = old_date
+    if not 1000 <= date.year <= 9999:
+        date = old_date
+    if parts & {"YY", "0Y", "GG", "0G"} and not (2001 <= date.year <= 2099 and 2001 <= ref_cal(date)["year_g"] <= 2099):
+        date = old_date
+    cands = [f for f in ("patch", "minor", "major") if f.upper() in parts]
+    if cands and d.chance(3, 4):
+        flags[d.choice(cands)] = True
+    if "NUM" in parts and state["tag"] != "final" and d.chance(1, 3):
+        flags["tag_num"] = True
+    if parts & {"TAG", "PYTAG"} and d.chance(1, 4):
+        order = ["dev", "alpha", "beta", "rc", "final", "post"]
+        later = [t for t in order if order.index(t) > order.index(state["tag"])] if state["tag"] in order else order
+        if later:
+            flags["tag"] = d.choice(later)
+            flags["tag_num"] = False
+    if d.chance(1, 8):
+        flags["pin_date"] = True
+    return flags, date.isoformat()
